@@ -6,7 +6,8 @@ open Qx.Driver Qx.C11
 Line protocol of the C11 driver (tokens separated by single spaces; every string is written as `=` followed
 by its UTF-8 bytes percent-encoded, an absent attribute as `-`):
 
-  reset (v1|v2) <own>                                           → ok
+  reset (v1|v2) <own>                                           → ok     (new client + manager)
+  config <own>                                                  → ok     (the SAME client is reconfigured: account switch)
   msg <tag> <id?> <from?> <to?> <junk 0|1> <n> child{n}         → h=<0|1> w=<0|1> <events>
     child := c <tag> <ns> <text> <n> fwd{n}
     fwd   := f <tag> <ns> <n> inner{n}
@@ -128,6 +129,10 @@ def stepLine (s : St) (line : String) : St × String :=
       if g = "v1" then ((step s (.configure .v1 own)).1, "ok")
       else if g = "v2" then ((step s (.configure .v2 own)).1, "ok")
       else (s, "bad-op")
+    | none => (s, "bad-op")
+  | ["config", own] =>
+    match reqStr own with
+    | some own => ((step s (.configure s.gen own)).1, "ok")
     | none => (s, "bad-op")
   | "msg" :: rest =>
     match pOuter rest with
